@@ -96,6 +96,8 @@ def trial(fam, P, rng):
         return np.zeros(n)
     if fam == 'small':
         return r * rng.uniform(-0.5, 0.5, n)
+    if fam == 'huge':
+        return r * rng.uniform(-2000, 2000, n)
     g = rng.uniform(-40, 40, n)
     g[::5] *= 10
     return r * g
@@ -191,13 +193,13 @@ def run(ctx):
                          'hard-core pair); every Stride-th is built as a real System and evaluated through PRISM.cost for the three trial '
                          'families; distinct = (grid, family, pair, closure, flag, potential) combinations compared')
     ctx.trusted += ['TLC 1.8.0', 'numpy']
-    ctx.assumptions += ['overlap value / kT >= 746 + gamma so that exp underflows to 0.0 (default high_value 1e6, kT <= 2, |gamma| <= 400)',
+    ctx.assumptions += ['overlap value / kT >= 746 + gamma so that exp underflows to 0.0 (default high_value 1e6, kT <= 2, |gamma| <= 2000)',
                         'MSA/MS without the flag on a divergent potential are excluded (documented not to work)',
                         'grid points within 1e-6 of sigma that are not bitwise <= sigma are not judged here (C10)',
                         'solved objects: unconverged solves skipped and counted']
     diam = [(16, 16), (8, 10)] if not thorough else [(16, 16), (16, 24), (8, 10), (12, 20)]
     kts = [1] if not thorough else [1, 2]
-    stride = 89 if not thorough else 47
+    stride = 127 if not thorough else 47
     psigs = ['default', 'smaller'] if not thorough else ['default', 'smaller', 'larger']
     res = run_tlc('MC_HardCoreRun', cfg(stride, kts, psigs), ctx.tmp, extra_modules={'MC_HardCoreRun': mc_module(diam)}, workers=8, seed=ctx.seed, coverage=False)
     require_clean(res, 'HardCore')
